@@ -43,6 +43,10 @@ type caseDesc struct {
 	Cfg   deploy.Config `json:"config"`
 	Proof proof         `json:"proof"`
 	Later []later       `json:"later"`
+	// Interleave: after this session's HelloDevice/GetOVNextEntry and before its ProveDevice,
+	// another session of ANOTHER enrolled device starts on the same server ("hello": 60 and 62s,
+	// "proved": up to a served ProveDevice)
+	Interleave string `json:"interleave,omitempty"`
 }
 
 type world struct {
@@ -152,7 +156,7 @@ func evalCase(d caseDesc) ev.Result {
 	if err != nil {
 		return ev.Failf("setup", "%v", err)
 	}
-	tag := fmt.Sprintf("%s/%s/%s/%s proof=%+v", d.Cfg.Key, d.Cfg.Enc, d.Cfg.Kex, d.Cfg.Cipher, d.Proof)
+	tag := fmt.Sprintf("%s/%s/%s/%s proof=%+v interleave=%q", d.Cfg.Key, d.Cfg.Enc, d.Cfg.Kex, d.Cfg.Cipher, d.Proof, d.Interleave)
 
 	// recorded material from other sessions
 	var replayBody []byte
@@ -182,6 +186,17 @@ func evalCase(d caseDesc) ev.Result {
 			return ev.Failf(err.Error(), "%s: owner panicked before ProveDevice", tag)
 		}
 		return ev.Failf("setup", "%s: %v", tag, err)
+	}
+	if d.Interleave != "" {
+		o, err := begin(w, w.dev2)
+		if err != nil {
+			return ev.Failf("setup", "%s: interleaved session of the other device: %v", tag, err)
+		}
+		if d.Interleave == "proved" {
+			if r := peer.Post(w.owner.Handler, 64, o.Token, o.ProveDeviceBody(peer.Token64{})); !r.OK(65) {
+				return ev.Failf("setup", "%s: interleaved session ProveDevice answered %d/%d", tag, r.Status, r.Type)
+			}
+		}
 	}
 	j0 := w.owner.J.Len()
 	devPub := w.dev.Key.Public()
@@ -552,6 +567,9 @@ func genCase(t *rapid.T) caseDesc {
 		d.Proof.Mut = refcbor.Mutation{Node: rapid.IntRange(0, 60).Draw(t, "node"), Op: "auto", Arg: int64(rapid.IntRange(-4000, 4000).Draw(t, "arg"))}
 	}
 	d.Later = genLater(t)
+	if rapid.IntRange(0, 2).Draw(t, "interleave") == 0 {
+		d.Interleave = rapid.SampledFrom([]string{"hello", "hello", "proved"}).Draw(t, "ikind")
+	}
 	return d
 }
 
@@ -575,7 +593,7 @@ func TestC02(t *testing.T) {
 		}
 		return res
 	})
-	r.SetRule("attacks", "an attack client against the real owner service behind the real HTTP handler: honest 60/62*, then a ProveDevice that is honest, omitted, signed by another key (stranger, owner, another device of this owner, key of another kind), a genuine token replayed from another session of this device or from another device, a fresh token of another enrolled device (its key AND its UEID, this session's nonce), a device-signed token whose UEID names another GUID (other device, first/last byte changed, wrong type byte, short, long, text) or whose claims are omitted / mistyped / stale / swapped (incl. the unprotected SetupDevice nonce and the FDO claim), one structure-aware mutation of the honest token, or a garbled key-exchange parameter; followed by 66/68/70 in or out of order, protected honestly, sent in plaintext, under self-chosen keys (random, all-zero, all-ones), under the keys of another proven session, or as garbage. Oracle: an independent reference decides from the bytes sent whether the token is signed by the voucher's device key over this session's nonce and the voucher GUID; SetupDevice(65) only for such a token (and then it decrypts under keys derived from the token's xB); 67/69/71 only after that and only for messages protected under this session's keys; without a valid proof the journal shows no ReplaceVoucher and no owner-module call; no panic. Non-trivial: any forged proof or any later message sent without proof or without the session keys; distinct by descriptor.")
+	r.SetRule("attacks", "an attack client against the real owner service behind the real HTTP handler: honest 60/62*, then a ProveDevice that is honest, omitted, signed by another key (stranger, owner, another device of this owner, key of another kind), a genuine token replayed from another session of this device or from another device, a fresh token of another enrolled device (its key AND its UEID, this session's nonce), a device-signed token whose UEID names another GUID (other device, first/last byte changed, wrong type byte, short, long, text) or whose claims are omitted / mistyped / stale / swapped (incl. the unprotected SetupDevice nonce and the FDO claim), one structure-aware mutation of the honest token, or a garbled key-exchange parameter; optionally with a session of another enrolled device started (or proven) on the same server between this session's HelloDevice and its ProveDevice; followed by 66/68/70 in or out of order, protected honestly, sent in plaintext, under self-chosen keys (random, all-zero, all-ones), under the keys of another proven session, or as garbage. Oracle: an independent reference decides from the bytes sent whether the token is signed by the voucher's device key over this session's nonce and the voucher GUID; SetupDevice(65) only for such a token (and then it decrypts under keys derived from the token's xB); 67/69/71 only after that and only for messages protected under this session's keys; without a valid proof the journal shows no ReplaceVoucher and no owner-module call; no panic. Non-trivial: any forged proof or any later message sent without proof or without the session keys; distinct by descriptor.")
 	ev.Rapid(r, "attacks", ev.N{Quick: 6000, Thorough: 200000}, genCase, evalCase)
 	ev.CheckWitness(r, "attacks", evalCase)
 }
